@@ -10,7 +10,8 @@
 //!           requests, interleaved with poll / poll_egress / ingress / device back-pressure.
 //!  * rx     (E2): all permutations (+ one duplicate, + overlapping retransmission, + two
 //!           interleaved datagrams, + two datagrams with the same id/source/protocol but
-//!           different destinations) of fragment sets built by our own fragmenter, delivered to
+//!           different destinations, + a partial datagram that expires (the only place where
+//!           time passes) before a second one arrives) of fragment sets built by our own fragmenter, delivered to
 //!           an interface with a bound udp / raw socket.
 //!
 //! Every call into smoltcp made by a sweep case / BFS step / rx case runs under catch_unwind: a
@@ -88,6 +89,11 @@ impl Net {
         self.polls += 1;
         self.iface.poll(now(), &mut self.dev, &mut self.sockets);
     }
+    /// poll at an explicit instant (only the rx family "expired-then-reused" lets time pass)
+    pub fn poll_t(&mut self, t: Instant) {
+        self.polls += 1;
+        self.iface.poll(t, &mut self.dev, &mut self.sockets);
+    }
     pub fn poll_at_is_none(&mut self) -> bool {
         self.iface.poll_at(now(), &self.sockets).is_none()
     }
@@ -158,7 +164,7 @@ pub(crate) fn medium_name(eth: bool) -> &'static str {
 pub fn run(tier: Tier) -> i32 {
     let mut rep = Report::new("C12", tier);
     rep.assumptions.push("oracle = own IPv4/UDP/ICMP/ARP builders + parser + reassembler (src/frag4/wire.rs, wirecheck.rs), RFC 1071 checksum; trusted".into());
-    rep.assumptions.push("no time passes (every call uses Instant 0): reassembly timeout and neighbor expiry are never reached".into());
+    rep.assumptions.push("no time passes (every call uses Instant 0: reassembly timeout and neighbor expiry are never reached), except in the rx family 'expired-then-reused' where the clock jumps once by timeout-1s / timeout / timeout+1s".into());
     rep.assumptions.push(format!(
         "build-time limits in effect: FRAGMENTATION_BUFFER_SIZE={} REASSEMBLY_BUFFER_SIZE={} REASSEMBLY_BUFFER_COUNT={} ASSEMBLER_MAX_SEGMENT_COUNT={}",
         smoltcp::config::FRAGMENTATION_BUFFER_SIZE,
@@ -174,7 +180,7 @@ pub fn run(tier: Tier) -> i32 {
     rx::run_rx(&mut rep, tier);
     rep.cov(
         "rule",
-        json!("tx/S1: every (medium, MTU, UDP payload length) listed in s1.domain, one datagram each on a fresh interface; tx/S1b: every ordered pair of (kind,len) listed in s1b.domain; tx/S2: BFS over event sequences (alphabet in s2.alphabet) up to the stated depth with state merging on verif_digest+sockets+device+model; rx: every permutation of every fragment set listed in rx.domain (plus one-duplicate multiset permutations, overlapping retransmission mixes, two interleaved datagrams, two same-key datagrams for different destinations). 'states' = distinct inputs (sweeps) + distinct BFS states; 'transitions' = executions on the real stack (cases / BFS transitions)"),
+        json!("tx/S1: every (medium, MTU, UDP payload length) listed in s1.domain, one datagram each on a fresh interface; tx/S1b: every ordered pair of (kind,len) listed in s1b.domain; tx/S2: BFS over event sequences (alphabet in s2.alphabet) up to the stated depth with state merging on verif_digest+sockets+device+model; rx: every permutation of every fragment set listed in rx.domain (plus one-duplicate multiset permutations, overlapping retransmission mixes, two interleaved datagrams, two same-key datagrams for different destinations, a partially received datagram that expires before another one arrives). 'states' = distinct inputs (sweeps) + distinct BFS states; 'transitions' = executions on the real stack (cases / BFS transitions)"),
     );
     rep.finish()
 }
